@@ -241,6 +241,12 @@ func C04(sp *spec.Spec, ex *rt.Exchange) *Verdict {
 	// ambiguity: empty string / empty collection outside the body == absent
 	if amb := emptyOutsideBody(sp, m, c.Sent); amb {
 		v.Notes = append(v.Notes, "empty-outside-body")
+		if len(viol) == 0 && ex.StubIn == nil && errorNameOf(ex.WireResp) == "missing_field" {
+			// envelope decision (DESIGN 7.C02): an empty text outside the body is absence; whether such a request
+			// "satisfies the design" when the attribute is required is not decidable from the statement
+			v.Inconclusive = "empty value of a required attribute outside the body (absence)"
+			return v
+		}
 	}
 	names, set := ruleNames(viol)
 	// a missing body attribute that IS the body may be reported as a missing payload
@@ -288,7 +294,7 @@ func emptyOutsideBody(sp *spec.Spec, m *spec.Method, sent any) bool {
 	}
 	for k, e := range o {
 		if cases.LocOf(m.HTTP, k) != valgen.Body {
-			if s, ok := e.(string); ok && (s == "s:") {
+			if s, ok := e.(string); ok && (s == "s:" || s == "y:") {
 				return true
 			}
 		}
